@@ -1,6 +1,7 @@
 package main
 
 import (
+	"fmt"
 	"reflect"
 	"strings"
 
@@ -40,6 +41,8 @@ type structCall struct {
 	typed map[interface{}]valid.RM // SetRule(rm, obj), keyed by a pointer to the struct type
 	local map[string]string      // per-call marker functions
 	alt   bool                   // go through the exported convenience wrapper of valid.go that fits the configuration
+	// shadowed: a rule set registered for the same type BEFORE the one in typed (SetRule twice: the later call replaces the earlier)
+	shadowed map[reflect.Type]valid.RM
 }
 
 // viaWrapper: the same call through Struct / StructForFn / StructForFns / NestedStructForRule / ValidateStruct /
@@ -77,7 +80,7 @@ func (c structCall) viaWrapper() (string, bool) {
 
 func (c structCall) run() string {
 	return guard(func() string {
-		if c.alt {
+		if c.alt && len(c.shadowed) == 0 {
 			if out, ok := c.viaWrapper(); ok {
 				return out
 			}
@@ -92,6 +95,13 @@ func (c structCall) run() string {
 			vs.SetRule(c.outer)
 		}
 		for obj, rm := range c.typed {
+			t := reflect.TypeOf(obj)
+			for t.Kind() == reflect.Ptr {
+				t = t.Elem()
+			}
+			if first, ok := c.shadowed[t]; ok {
+				vs.SetRule(first, reflect.New(t).Elem().Interface()) // by value; replaced by the next call
+			}
 			vs.SetRule(rm, obj)
 		}
 		for n, mk := range c.local {
@@ -121,8 +131,59 @@ func (c structCall) cfgSexp() string {
 	return N("cfg", X(tag), N("typed", typed...), encodeRM(outer), encodeFns("lfns", c.local), encodeFns("gfns", globalFns))
 }
 
+// copyRM / sameRM: the caller's rule maps must come back unchanged
+func copyRM(m map[string]string) map[string]string {
+	if m == nil {
+		return nil
+	}
+	out := make(map[string]string, len(m))
+	for k, v := range m {
+		out[k] = v
+	}
+	return out
+}
+
+// inputFP: canonical rendering of the caller's value (maps sorted) — the call must leave it unchanged
+func inputFP(src interface{}) string {
+	if src == nil {
+		return "nil"
+	}
+	_, fp := encodeValueCtx(reflect.ValueOf(src), nil)
+	return fp
+}
+
+// observed runs a call and reports, instead of its result, any modification of the caller's value or rule maps
+func observed(src interface{}, rms []map[string]string, call func() string) string {
+	before := inputFP(src)
+	copies := make([]map[string]string, len(rms))
+	for i, m := range rms {
+		copies[i] = copyRM(m)
+	}
+	impl := call()
+	if after := inputFP(src); after != before {
+		return X("THE CALL MODIFIED ITS INPUT VALUE: before " + before + " after " + after)
+	}
+	for i, m := range rms {
+		if !reflect.DeepEqual(m, copies[i]) {
+			return X(fmt.Sprintf("THE CALL MODIFIED A RULE MAP OF THE CALLER: before %v after %v", copies[i], m))
+		}
+	}
+	return impl
+}
+
+func (c structCall) ruleMaps() []map[string]string {
+	rms := []map[string]string{c.outer}
+	for _, rm := range c.typed {
+		rms = append(rms, rm)
+	}
+	for _, rm := range c.shadowed {
+		rms = append(rms, rm)
+	}
+	return rms
+}
+
 func (c structCall) toCase(tags []string, probe string) Case {
-	impl := c.run()
+	impl := observed(c.src, c.ruleMaps(), c.run)
 	cfg := c.cfgSexp()
 	src, sp := encodeSrcCtx(c.src)
 	return Case{
@@ -132,7 +193,7 @@ func (c structCall) toCase(tags []string, probe string) Case {
 }
 
 func varCase(src interface{}, rules []string, tags []string, probe string) Case {
-	impl := guard(func() string { return errStr(valid.Var(src, rules...)) })
+	impl := observed(src, nil, func() string { return guard(func() string { return errStr(valid.Var(src, rules...)) }) })
 	s, sp := encodeSrcCtx(src)
 	rs := make([]string, len(rules))
 	for i, r := range rules {
@@ -147,11 +208,13 @@ func varCase(src interface{}, rules []string, tags []string, probe string) Case 
 }
 
 func mapCase(src interface{}, rm valid.RM, local map[string]string, tags []string, probe string) Case {
-	impl := guard(func() string {
-		if local == nil {
-			return errStr(valid.Map(src, rm))
-		}
-		return errStr(valid.MapFn(src, rm, fnMap(local)))
+	impl := observed(src, []map[string]string{rm}, func() string {
+		return guard(func() string {
+			if local == nil {
+				return errStr(valid.Map(src, rm))
+			}
+			return errStr(valid.MapFn(src, rm, fnMap(local)))
+		})
 	})
 	s, sp := encodeSrcCtx(src)
 	r := encodeRM(rm)
@@ -164,7 +227,7 @@ func mapCase(src interface{}, rm valid.RM, local map[string]string, tags []strin
 }
 
 func urlCase(src interface{}, rm valid.RM, tags []string, probe string) Case {
-	impl := guard(func() string { return errStr(valid.Url(src, rm)) })
+	impl := observed(nil, []map[string]string{rm}, func() string { return guard(func() string { return errStr(valid.Url(src, rm)) }) })
 	var s string
 	switch v := src.(type) {
 	case nil:
